@@ -74,6 +74,9 @@ def stages(tier, rng, only=None):
                      aux=aux))
     out.append(ac.stage("sparse_cycles", PID, lambda: _runs([ac.cycle_plus_sparse(rng) for _ in range(nq)], 1, 6),
                         _nt_run))
+    out.append(ac.stage("ids_from_tied_buckets", PID, lambda: ac.cases(
+        [ac.tied_first(rng) for _ in range(nq)], PARCONS, SCHEMES, flags=(1,), namings=["scatter", "collide", "letters"],
+        env="standin"), _nt_run))
     # doubly-unranked pairs dearer to tie than to order (T[5] > B[5]) and the other way round
     t5 = [ac.P_EXT, ([0, 4, 2, 0, 2, 1], [2, 2, 0, 1, 1, 3], 4), ac.P_UNI1, ([0, 4, 4, 0, 4, 0], [4, 4, 0, 4, 4, 2], 4)]
     out.append(ac.stage("sparse_cycles_t5", PID, lambda: ac.cases(
